@@ -355,10 +355,12 @@ class BaseDetector(BaseEstimator):
         if y is not None:
             y = check_series(y, allow_index_names=True)
 
-        self._X = X.combine_first(self._X)
+        # np.ndarray has no `combine_first`; it is treated as a frame with a default
+        # index, like everywhere else.
+        self._X = pd.DataFrame(X).combine_first(pd.DataFrame(self._X))
 
         if y is not None:
-            self._y = y.combine_first(self._y)
+            self._y = pd.DataFrame(y).combine_first(pd.DataFrame(self._y))
 
         self._update(X=X, y=y)
 
